@@ -217,6 +217,21 @@ func runC18(c *Ctx) {
 			call(ie, outs)
 		})
 	}
+	// transactions of 512 and more elements (work handed to a second goroutine above some size must be waited for):
+	// many inputs with few outputs and the reverse
+	for _, sz := range [][2]int{{510, 2}, {600, 1}, {3, 700}, {1100, 1100}} {
+		if !c.Thorough() && sz[0]+sz[1] > 800 {
+			continue
+		}
+		var ins, outs []interface{}
+		for i := 0; i < sz[0]; i++ {
+			ins = append(ins, map[string]interface{}{"hash": ints(mkHash(r.Intn(40))), "idx": w32(uint32(r.Intn(1000))), "script": ints([]byte{byte(i)}), "seq": w32(uint32(i))})
+		}
+		for i := 0; i < sz[1]; i++ {
+			outs = append(outs, map[string]interface{}{"value": ints(mkVal(r.Intn(9))), "script": ints([]byte{byte(r.Intn(6)), byte(i), byte(i >> 8)})})
+		}
+		call(ins, outs)
+	}
 	// random transactions up to hundreds of elements
 	for k := 0; k < c.Pick(60, 600); k++ {
 		ni, no := r.Intn(12), r.Intn(12)
